@@ -15,6 +15,7 @@ THEOREMS = [_T + n for n in [
     "interp_matches_gen_structure_partial", "interp_matches_gen_outcome_partial",
     "parse_flat_roundtrip", "bytes_literal_roundtrip",
     "cache_keyed_by_resolved_name", "load_history_independent", "resolve_toplevel",
+    "break_inside_loop_refuted", "break_inside_loop_partial",
 ]]
 TRUSTED = [
     "CPython executes the generated source as Python defines (exec of Template.code); the generated source itself is "
@@ -44,12 +45,14 @@ RULE = ("grammar-directed templates (nesting <= 4, DictLoader with extends chain
         "directory-structured names with clashing base names / decoy files stored under the unresolved spelling of a "
         "relative reference, 0-6 earlier loads on the same loader instance in several orders, all whitespace modes, "
         "literal text with quotes/backslashes/braces/!/non-ASCII/<pre>/Unicode spaces), a fault-injection stream (one "
-        "malformed directive at a known place), a mutation stream, a brace-soup stream and a primitives stream; "
+        "malformed directive at a known place), a systematic stream of break/continue inside blocks (one file, parent block inside / "
+        "outside a loop / inside apply, overridden) and inside finally, a mutation stream, a brace-soup stream and a primitives stream; "
         "non-trivial = at least one directive nested in another or a loader with >= 2 files, or a ParseError; "
         "distinct by canonical JSON of the case")
 EXHAUSTIVE = {"quick": False, "thorough": False}
 CLAUSE_CAVEATS = [
     'parse_error_located pins every ParseError to the first directive the builder rejects (all 21 kinds); the line named is reader.line just BEHIND that directive (its last line when it spans several lines - the behaviour of the code, the oracle accepts the span first..last line); that the real _parse rejects the same directive as the model is the fault-injection tie',
+    'KNOWN FINDING valid/compile-error/break-in-moved-block: a break/continue in a block body that extends moves out of its loop is accepted by _parse and fails with SyntaxError at load (break_inside_loop_refuted); break_inside_loop_partial has its side condition on the generated lines only, the source-level statement (break_inside_loop_goal: no block body with a loose break/continue => the module compiles) is open and decided per case by CPython',
     'interp_matches_gen_structure_partial covers text, expressions, raw, if/elif/else, for, set, break, continue; apply, block/extends/include, while, try, import are tie-only',
 ]
 CLAUSES = {
@@ -66,7 +69,8 @@ CLAUSES = {
         "directive sits at the stated source offset, opens on lineAt(offset) and the reported line is lineAt(offset just behind its "
         "closing marker); or the input ran out and the line is that of the offset where the rest / the unclosed directive starts), "
         "parse_error_line (weaker: some offset), unterminated_error_line, lex_line_invariant + fault-injection oracle (file and line "
-        "span of the injected fault)",
+        "span of the injected fault); known finding: break/continue in a block moved out of its loop by extends gives a SyntaxError, not a "
+        "ParseError (break_inside_loop_full / _refuted / _partial, loop_block_cases stream)",
     "literal text is reproduced byte-for-byte apart from the selected whitespace filtering":
         "lex_src, text_verbatim, text_only_output, escape_sequences, triple_brace_innermost, filter_all_identity, filter_single_idempotent, filter_whitespace_idempotent (all three modes; also checked on every filter case)",
     "extends, block and include through a loader":
@@ -644,6 +648,41 @@ SOUP = ["{", "{", "}", "%", "#", "!", " ", "\n", "a", "{{", "}}", "{%", "%}", "{
         "apply f", "set a=1", "raw", "try", "break", "whitespace all", "autoescape None", "include 'i0'", "extends 'i0'", "\t", "é"]
 
 
+def loop_block_cases():
+    """systematic: `break` / `continue` next to the constructs that move a body somewhere else.  `{% block %}` inherits
+    `in_loop` from its surroundings (template.py _parse), but the body of a block is generated at the place of the block
+    of the ROOT template: a child's block that sits inside a loop of the child can land outside every loop (or inside an
+    `{% apply %}` function) of the parent.  Also `break` / `continue` inside `finally` of a `try` inside a loop."""
+    loops = [("{% for y in l3 %}", "{% end %}"), ("{% set w = t1 %}{% while w %}{% set w = f0 %}", "{% end %}")]
+    for kw in ("break", "continue"):
+        for stmt in ("{% " + kw + " %}", "{% if t1 %}{% " + kw + " %}{% end %}", "{% if f0 %}{% " + kw + " %}{% end %}"):
+            for lo, le in loops:
+                def case(files, entry, known=False):
+                    c = {"kind": "tpl", "files": files, "entry": entry, "ws": None, "ae": "xhtml_escape", "exec": True, "valid": True,
+                         "feat": ["loopblock", "block", "break"]}
+                    if known:
+                        c["break_in_block"] = True
+                    return c
+                child = "{% extends \"p.html\" %}{% for q in li %}{% block b1 %}c{{ q }}" + stmt + "d{% end %}{% end %}"
+                # A: one file, the block inside the loop
+                yield case([["e.html", "a" + lo + "[{% block b1 %}{{ sx }}" + stmt + "z{% end %}]" + le + "c"]], "e.html")
+                # B: the parent's block is inside a loop of the parent
+                yield case([["p.html", "a" + lo + "[{% block b1 %}p{% end %}]" + le + "c"], ["e.html", child]], "e.html")
+                # C: the parent's block is outside every loop          (known finding: SyntaxError instead of ParseError)
+                yield case([["p.html", "a[{% block b1 %}p{% end %}]c"], ["e.html", child]], "e.html", known=True)
+                # D: the parent's block is inside an apply inside a loop (known finding)
+                yield case([["p.html", "a" + lo + "{% apply wrap %}{% block b1 %}p{% end %}{% end %}" + le + "c"], ["e.html", child]],
+                           "e.html", known=True)
+                # E: the parent's block has the statement, the child overrides it with text
+                yield case([["p.html", "a" + lo + "[{% block b1 %}p" + stmt + "r{% end %}]" + le + "c"],
+                            ["e.html", "{% extends \"p.html\" %}{% block b1 %}child{% end %}"]], "e.html")
+                # F: inside `finally` (with and without an exception on its way)
+                for boom in ("", "{{ boom }}"):
+                    yield case([["e.html", "a" + lo + "{% try %}t" + boom + "{% finally %}f" + stmt + "g{% end %}z" + le + "c"]], "e.html")
+                    yield case([["e.html", "a" + lo + "{% try %}t" + boom + "{% except NameError %}x{% finally %}f" + stmt + "g{% end %}z" + le + "c"]],
+                               "e.html")
+
+
 def gen_cases(rng, tier):
     n = {"quick": 2600, "thorough": 52000, "search": 3000}[tier]
     # dense boundary cases of the reader first (always)
@@ -656,6 +695,7 @@ def gen_cases(rng, tier):
     # resolved name": two directories with the same base names, relative include / extends / include inside an
     # overriding block, every order of earlier loads on the same loader instance
     yield from history_cases(tier)
+    yield from loop_block_cases()
     # DictLoader.resolve_path: all short names over {a . /} (and `..` `<`) against a set of parents
     alpha = ["a", ".", "/"]
     names = [""]
@@ -1051,6 +1091,11 @@ def stats(case, impl):
     return out
 
 
+def _break_and_block(case):
+    """some file has a `{% block %}` and a `{% break %}` / `{% continue %}`"""
+    return any(re.search(r"\{%\s*block\b", t) and re.search(r"\{%\s*(break|continue)\s*%\}", t) for _, t in case.get("files", []))
+
+
 def signature(case, impl, why):
     if case.get("fault"):
         k = case["fault"]["kind"]
@@ -1062,6 +1107,8 @@ def signature(case, impl, why):
     if "rejected" in why:
         return "valid/rejected"
     if "failed to compile" in why:
+        if (case.get("break_in_block") or _break_and_block(case)) and why.endswith("SyntaxError"):
+            return "valid/compile-error/break-in-moved-block"
         return "valid/compile-error"
     if "direct interpretation" in why:
         return "valid/output-differs"
